@@ -156,6 +156,9 @@ class CallMixin:
         st.assume(z3.ForAll([a], z3.Implies(z3.And(0 <= a, a < m), z3.And(base <= idx(a), idx(a) < base + n, gi(idx(a))))))
         st.assume(z3.ForAll([a, b2], z3.Implies(z3.And(0 <= a, a < b2, b2 < m), idx(a) < idx(b2))))
         st.assume(z3.ForAll([i2], z3.Implies(gi(i2), z3.Exists([a], z3.And(0 <= a, a < m, idx(a) == i2)))))
+        # a filter whose condition holds at every position keeps everything, in place (consequence of the three facts above by counting)
+        bounds = z3.And(base <= i2, i2 < base + n)
+        st.assume(z3.Implies(z3.ForAll([i2], z3.Implies(bounds, gi(i2))), z3.And(m == n, z3.ForAll([a], z3.Implies(z3.And(0 <= a, a < m), idx(a) == base + a)))))
         jj = z3.Int(fresh_name("j"))
         fel = z3.Const(fresh_name("filtel"), z3.ArraySort(I, ety.sort()))
         st.assume(z3.ForAll([jj], z3.Implies(z3.And(0 <= jj, jj < m), fel[jj] == z3.substitute(et, (j, idx(jj)))),
